@@ -132,13 +132,14 @@ def whyTop (cfg : Config) (e : Expr) : List String :=
 mutual
 partial def whyS (cfg : Config) : Stmt → List String
   | .assign _ ts v =>
-      (if isSingleName ts then [] else
-        [if ts.length > 1 then "stmt:assign-multi-target" else
-          match ts with
-          | [.attr ..] => "stmt:assign-attribute-target"
-          | [.subscript ..] => "stmt:assign-subscript-target"
-          | [.seq ..] => "stmt:assign-unpacking-target"
-          | _ => "stmt:assign-other-target"]) ++ whyTop cfg v ++ (if isSingleName ts then [] else whyEs ts)
+      (if !ts.isEmpty && ts.all tgtOk then
+          (if quiets cfg ts then [] else ["finding-class:store-target-operands-hoisted-before-value"])
+        else ts.flatMap fun t => match t with
+          | .name .. => []
+          | .attr _ o _ _ => if fragE o then [] else ["stmt:assign-target-outside-expr-fragment"] ++ whyE o
+          | .subscript _ o s _ => if fragE o && fragE s then [] else ["stmt:assign-target-outside-expr-fragment"] ++ whyE o ++ whyE s
+          | .seq .. => ["stmt:assign-nested/starred-unpacking-target"]
+          | _ => ["stmt:assign-other-target"]) ++ whyTop cfg v
   | .expr _ v => whyTop cfg v
   | .ret _ vs => vs.flatMap (whyTop cfg)
   | .if_ _ t b e => whyTop cfg t ++ whySs cfg b ++ whySs cfg e
@@ -152,19 +153,26 @@ partial def whyS (cfg : Config) : Stmt → List String
   | .pass _ => []
   | .break_ _ => []
   | .continue_ _ => []
-  | .augAssign _ t _ v => ["stmt:augassign"] ++ whyE t ++ whyTop cfg v
+  | .augAssign _ t _ v =>
+      (if isNameT t then (if disjoint (namesE t) (writesE v) then [] else ["finding-class:augassign-target-rebound-by-value"])
+       else ["stmt:augassign-nonname-target"]) ++ whyTop cfg v
   | .annAssign .. => ["stmt:annassign"]
-  | .delete .. => ["stmt:delete"]
+  | .delete _ ts =>
+      if ts.all delOk then (if quiets cfg ts then [] else ["finding-class-or-unproved:del-target-operands-hoisted"])
+      else ["stmt:delete-target-outside-expr-fragment"] ++ whyEs ts
   | .while_ _ t b e => ["stmt:while"] ++ whyTop cfg t ++ whySs cfg b ++ whySs cfg e
   | .with_ _ items b _ => ["stmt:with"] ++ whyEs (items.flatMap fun | .withitem _ c v => c :: v | x => [x]) ++ whySs cfg b
-  | .raise _ e c => ["stmt:raise"] ++ (e ++ c).flatMap (whyTop cfg)
-  | .assert_ _ t m => ["stmt:assert"] ++ whyTop cfg t ++ m.flatMap (whyTop cfg)
-  | .functionDef .. => ["stmt:nested-def"]
+  | .raise _ e c =>
+      (if e.length == 1 && c.isEmpty then [] else ["stmt:raise-from/bare-raise"]) ++ (e ++ c).flatMap (whyTop cfg)
+  | .assert_ _ t m => whyE t ++ whyEs m ++ (if m.length ≤ 1 then [] else ["stmt:assert-odd"])
+  | .functionDef _ _ as b ds rs _ =>
+      (if plainParams as && quiet cfg as then [] else ["stmt:nested-def-with-defaults/annotations"])
+        ++ (if ds.isEmpty && rs.isEmpty then [] else ["stmt:nested-def-with-decorators"]) ++ whySs cfg b
   | .classDef .. => ["stmt:class"]
   | .import_ .. => ["stmt:import"]
   | .importFrom .. => ["stmt:import"]
-  | .global .. => ["stmt:global/nonlocal"]
-  | .nonlocal .. => ["stmt:global/nonlocal"]
+  | .global .. => []
+  | .nonlocal .. => []
   | .other _ k _ _ => ["stmt:" ++ k]
 partial def whySs (cfg : Config) : List Stmt → List String
   | [] => []
@@ -173,8 +181,9 @@ end
 
 def whyFn (cfg : Config) : Stmt → List String
   | .functionDef _ _ as b ds rs _ =>
-      (if quiet cfg as then [] else ["fn:defaults/annotations-need-hoisting"]) ++ (if ds.isEmpty then [] else ["fn:decorators"])
-        ++ (if rs.isEmpty then [] else ["fn:return-annotation"]) ++ whySs cfg b
+      (if quiet cfg as then [] else ["fn:defaults/annotations-need-hoisting"])
+        ++ (if quiets cfg ds then [] else ["fn:decorators-need-hoisting"])
+        ++ (if quiets cfg rs then [] else ["fn:return-annotation-needs-hoisting"]) ++ whySs cfg b
   | _ => ["not-a-function"]
 
 def handlers : List (String × (List Sexp → String)) := [
